@@ -33,13 +33,13 @@ import gen_mdp
 from gen_mdp import _split_prob, GAMMAS_DISC
 
 
-def _obs_row(rng, nO, must=None, zero_entries=True):
+def _obs_row(rng, nO, must=None, zero_entries=True, den=None):
     k = rng.randint(1, min(3, nO))
     if must is None:
         os_ = rng.sample(range(nO), k)
     else:
         os_ = [must] + rng.sample([o for o in range(nO) if o != must], k - 1)
-    row = [[o, str(p)] for o, p in zip(os_, _split_prob(rng, k))]
+    row = [[o, str(p)] for o, p in zip(os_, _split_prob(rng, k, den()) if den else _split_prob(rng, k))]
     if zero_entries and rng.random() < .2:
         others = [o for o in range(nO) if o not in os_]
         if others:
@@ -48,10 +48,10 @@ def _obs_row(rng, nO, must=None, zero_entries=True):
     return row
 
 
-def _obs_kernel(rng, n, nO, kind):
+def _obs_kernel(rng, n, nO, kind, den=None):
     """rows[ns] = [[o, p], ...] for one action"""
     if kind == "uninformative":
-        row = _obs_row(rng, nO)
+        row = _obs_row(rng, nO, den=den)
         return [[list(e) for e in row] for _ in range(n)]
     if kind == "deterministic":
         f = [rng.randrange(nO) for _ in range(n)]
@@ -79,7 +79,7 @@ def _obs_kernel(rng, n, nO, kind):
             rng.shuffle(row)
             rows.append(row)
         return rows
-    return [_obs_row(rng, nO) for _ in range(n)]
+    return [_obs_row(rng, nO, den=den) for _ in range(n)]
 
 
 def obs_arrays(case, action_list, state_list, obs_list):
@@ -107,13 +107,20 @@ def _symmetric(mat):
 
 def gen_pomdp(rng, nmax=5, amax=3, omax=4, gamma=None, min_states=2, zero_entries=True,
               nonpos=False, goal=True, absorbing_selfloop=.7, tiny=0.0, near_twin=0.0, big_rewards=0.0,
-              force_reachable=True, ghosts=0.0, state_actions=0.0):
+              force_reachable=True, ghosts=0.0, state_actions=0.0, nondyadic=0.0, tiny_trans=0.0, tiny_init=0.0):
     """All of the following are OPT-IN (default off; when off they consume no randomness, so the
     default stream of cases is stable for every property that shares this generator):
     tiny        probability that the POMDP gets very rare (2^-30 / 2^-40) observation entries (obs_tiny)
     near_twin   probability that a "twin" kernel gets one column moved by 2^-30 in one row: two posteriors
                 that differ by ~1e-9 relative and must NOT be merged (obs_near_twin = [[a, ns, o1, o2, k]])
-    big_rewards probability that all rewards are scaled by 1000 or 2^16 (exactly representable)
+    big_rewards probability that all rewards are scaled by 1000, 2^16 or 10^9 (exactly representable) and given ONE
+                sign (a signed sum of huge terms that cancels is ill-conditioned in floats: not what C07 is about)
+    nondyadic   probability that probabilities / rewards / initial distribution are thirds, sevenths and tenths
+                instead of eighths (case["nondyadic"] = True): float rows do not sum to exactly 1.0, the doubles
+                msdm gets differ from the rationals the model gets by ~1e-16 relative
+    tiny_trans  probability of transition branches of probability 2^-30 / 2^-40 / 2^-50 (trans_tiny =
+                [[s, a, ns, k], ...]), half of them carrying a reward of size 2^k (contribution O(1))
+    tiny_init   probability that the initial distribution has an entry 2^-30 (init_tiny = [s])
     ghosts      probability that kernels LIST outcomes that are never possible, with explicit probability 0:
                 obs_ghost = [ids >= nO]: observations listed with "0" in some observation rows and positive
                 nowhere (so they are NOT in observation_list; nO does not count them);
@@ -130,7 +137,7 @@ def gen_pomdp(rng, nmax=5, amax=3, omax=4, gamma=None, min_states=2, zero_entrie
                 state list is given explicitly)"""
     while True:
         case = _gen_once(rng, nmax, amax, omax, gamma, min_states, zero_entries, nonpos, goal, absorbing_selfloop,
-                         force_reachable, state_actions)
+                         force_reachable, state_actions, nondyadic)
         if case is not None:
             case["obs_tiny"] = []
             if tiny and rng.random() < tiny:
@@ -139,9 +146,15 @@ def gen_pomdp(rng, nmax=5, amax=3, omax=4, gamma=None, min_states=2, zero_entrie
                 _add_near_twin(rng, case)
             if ghosts and rng.random() < ghosts:
                 _add_ghosts(rng, case)
+            if tiny_trans and rng.random() < tiny_trans:
+                _add_tiny_trans(rng, case)
+            if tiny_init and rng.random() < tiny_init:
+                _add_tiny_init(rng, case)
             if big_rewards and rng.random() < big_rewards:
-                f = rng.choice([1000, 2 ** 16])
-                case["reward"] = {k: str(F(r) * f) for k, r in case["reward"].items()}
+                f = rng.choice([1000, 2 ** 16, 10 ** 9])
+                sg = rng.choice([1, -1])
+                big = set("%d,%d,%d" % (s, a, ns) for s, a, ns, k in case.get("trans_tiny", []))
+                case["reward"] = {k: (r if k in big else str(sg * abs(F(r)) * f)) for k, r in case["reward"].items()}
                 case["reward_scale"] = f
             return case
 
@@ -160,6 +173,44 @@ def _add_ghosts(rng, case):
             case["trans"][k].insert(rng.randint(0, len(case["trans"][k])), [n, "0"])
         for a in range(nA):
             case["obs"]["%d,%d" % (a, n)] = [list(e) for e in case["obs"]["%d,%d" % (a, rng.randrange(n))]]
+
+
+def _add_tiny_trans(rng, case):
+    n = case["n"]
+    case["trans_tiny"] = []
+    keys = sorted(k for k in case["trans"] if int(k.split(",")[0]) < n)
+    for key in rng.sample(keys, min(len(keys), rng.randint(1, 2))):
+        s, a = map(int, key.split(","))
+        row = case["trans"][key]
+        big = max(range(len(row)), key=lambda i: F(row[i][1]))
+        zero = [x for x in range(n) if all(e[0] != x or F(e[1]) == 0 for e in row)]
+        if not zero:
+            continue
+        ns = rng.choice(zero)
+        k = rng.choice([30, 40, 50])
+        eps = F(1, 2 ** k)
+        row[big][1] = str(F(row[big][1]) - eps)
+        row[:] = [e for e in row if e[0] != ns] + [[ns, str(eps)]]
+        rng.shuffle(row)
+        if rng.random() < .5:
+            case["reward"]["%d,%d,%d" % (s, a, ns)] = str(rng.choice([1, -1]) * rng.randint(1, 4) * 2 ** k)
+        else:
+            case["reward"].pop("%d,%d,%d" % (s, a, ns), None)
+        case["trans_tiny"].append([s, a, ns, k])
+
+
+def _add_tiny_init(rng, case):
+    n = case["n"]
+    if n < 2:
+        return
+    init = case["init"]
+    big = max(range(len(init)), key=lambda i: F(init[i][1]))
+    s = rng.choice([x for x in range(n) if x != init[big][0]])
+    eps = F(1, 2 ** 30)
+    init[big][1] = str(F(init[big][1]) - eps)
+    old = sum(F(p) for x, p in init if x == s)
+    init[:] = [e for e in init if e[0] != s] + [[s, str(old + eps)]]
+    case["init_tiny"] = [s]
 
 
 def _add_near_twin(rng, case):
@@ -216,7 +267,9 @@ def _add_tiny(rng, case, omax):
 
 
 def _gen_once(rng, nmax, amax, omax, gamma, min_states, zero_entries, nonpos, goal, absorbing_selfloop,
-              force_reachable=True, state_actions=0.0):
+              force_reachable=True, state_actions=0.0, nondyadic=0.0):
+    nd = bool(nondyadic) and rng.random() < nondyadic
+    den = (lambda: rng.choice([3, 7, 10, 10])) if nd else None
     n = rng.randint(min_states, nmax)
     nA = rng.randint(1, amax)
     nO = rng.randint(1, omax)
@@ -238,7 +291,7 @@ def _gen_once(rng, nmax, amax, omax, gamma, min_states, zero_entries, nonpos, go
                 continue
             k = rng.randint(1, min(3, n))
             succ = rng.sample(range(n), k)
-            row = [[ns, str(p)] for ns, p in zip(succ, _split_prob(rng, k))]
+            row = [[ns, str(p)] for ns, p in zip(succ, _split_prob(rng, k, den()) if nd else _split_prob(rng, k))]
             if zero_entries and rng.random() < .2:
                 others = [x for x in range(n) if x not in succ]
                 if others:
@@ -249,6 +302,8 @@ def _gen_once(rng, nmax, amax, omax, gamma, min_states, zero_entries, nonpos, go
                 if rng.random() < .8:
                     r = F(rng.randint(-16, 0 if nonpos else 16), 4) if rng.random() < .3 \
                         else F(rng.randint(-4, 0 if nonpos else 4))
+                    if nd and rng.random() < .5:
+                        r = F(rng.randint(-30, 0 if nonpos else 30), rng.choice([3, 10]))
                     if r != 0:
                         reward["%d,%d,%d" % (s, a, ns)] = str(r)
     if state_actions and nA >= 2 and n >= 2 and rng.random() < state_actions:
@@ -269,12 +324,12 @@ def _gen_once(rng, nmax, amax, omax, gamma, min_states, zero_entries, nonpos, go
         if kind == "twin" and nO < 2:
             kind = "uninformative"
         kinds.append(kind)
-        for ns, row in enumerate(_obs_kernel(rng, n, nO, kind)):
+        for ns, row in enumerate(_obs_kernel(rng, n, nO, kind, den)):
             obs["%d,%d" % (a, ns)] = row
     if "informative" not in kinds:
         a = rng.randrange(nA)
         kinds[a] = "informative"
-        for ns, row in enumerate(_obs_kernel(rng, n, nO, "informative")):
+        for ns, row in enumerate(_obs_kernel(rng, n, nO, "informative", den)):
             obs["%d,%d" % (a, ns)] = row
     inf_actions = [a for a in range(nA) if kinds[a] == "informative"]
     case = {"n": n, "nA": nA, "actions": actions, "trans": trans, "reward": reward, "absorbing": absorbing,
@@ -289,7 +344,7 @@ def _gen_once(rng, nmax, amax, omax, gamma, min_states, zero_entries, nonpos, go
             break
         a = rng.choice(sym or same or inf_actions)
         ns = rng.randrange(n)
-        obs["%d,%d" % (a, ns)] = _obs_row(rng, nO, must=rng.choice(missing) if missing else None)
+        obs["%d,%d" % (a, ns)] = _obs_row(rng, nO, must=rng.choice(missing) if missing else None, den=den)
     else:
         return None
     # initial distribution; then make every state reachable (msdm's reachable_states rule)
@@ -301,13 +356,15 @@ def _gen_once(rng, nmax, amax, omax, gamma, min_states, zero_entries, nonpos, go
         if not unreached:
             break
         starts = starts + [unreached[0]]
-    ps = _split_prob(rng, len(starts))
+    ps = _split_prob(rng, len(starts), rng.choice([7, 10])) if nd else _split_prob(rng, len(starts))
     init = [[s, str(p)] for s, p in zip(starts, ps)]
     if zero_entries and rng.random() < .1:
         others = [x for x in range(n) if x not in starts]
         if others:
             init.append([rng.choice(others), "0"])
     case["init"] = init
+    if nd:
+        case["nondyadic"] = True
     if force_reachable and len(gen_mdp.reachable(case)) != n:
         return None
     return case
@@ -377,7 +434,7 @@ def _composition(rng, total, parts):
     return [b - a for a, b in zip([0] + cuts, cuts + [total])]
 
 
-def gen_beliefs(rng, case, n_grid=3, n_reach=3, tiny=False):
+def gen_beliefs(rng, case, n_grid=3, n_reach=3, tiny=False, nondyadic=False):
     """beliefs over states 0..n-1 as {"kind", "b": ["n/d"]*n, "dyadic": bool, "sparse": bool}:
     all vertices, faces (two-state beliefs), grid points k/8 with zero components, an interior
     grid point, beliefs with a tiny component 2^-30 (dyadic, so exact in floats), the initial distribution, beliefs supported on absorbing states (and one leaking
@@ -412,6 +469,10 @@ def gen_beliefs(rng, case, n_grid=3, n_reach=3, tiny=False):
     if A and len(A) < n:
         s0 = rng.choice([s for s in range(n) if not absf[s]])
         add("absorbing-leak", [F(7, 8) if s == A[0] else F(1, 8) if s == s0 else F(0) for s in range(n)])
+    # non-dyadic grids (opt-in): thirds, sevenths, tenths -- float components do not sum to exactly 1.0
+    if nondyadic:
+        for d in (3, 7, 10):
+            add("grid-%dths" % d, [F(k, d) for k in _composition(rng, d, n)])
     # tiny components (opt-in): positive mass far below any isclose tolerance
     if tiny and n >= 2:
         eps = F(1, 2 ** 30)
@@ -420,8 +481,9 @@ def gen_beliefs(rng, case, n_grid=3, n_reach=3, tiny=False):
         g = [F(k, 8) for k in _composition(rng, 8, n)]
         i = max(range(n), key=lambda x: g[x])
         j = rng.choice([x for x in range(n) if x != i])
-        g[i] -= eps
-        g[j] += eps
+        eps2 = F(1, 2 ** rng.choice([40, 50]))
+        g[i] -= eps2
+        g[j] += eps2
         add("tiny", g)
         if A and len(A) < n:
             s0 = rng.choice([s for s in range(n) if not absf[s]])
@@ -455,6 +517,11 @@ def features(case):
         "enters_state_without_the_action_taken": any(
             a not in case["actions"][ns] for s in range(case["n"]) for a in case["actions"][s]
             for ns, p in case["trans"]["%d,%d" % (s, a)] if F(p) > 0 and ns < case["n"]),
+        "nondyadic": bool(case.get("nondyadic")), "trans_tiny": bool(case.get("trans_tiny")),
+        "trans_tiny_with_large_reward": any("%d,%d,%d" % (s, a, ns) in case["reward"] for s, a, ns, k in case.get("trans_tiny", [])),
+        "init_tiny": bool(case.get("init_tiny")),
+        "nS_eq_nO": case["n"] == case["nO"], "nS_eq_nA": case["n"] == case["nA"], "nA_eq_nO": case["nA"] == case["nO"],
+        "nS_eq_nA_eq_nO": case["n"] == case["nA"] == case["nO"],
         "obs_near_twin": bool(case.get("obs_near_twin")),
         "obs_ghost": bool(case.get("obs_ghost")), "state_ghost": bool(case.get("state_ghost")),
         "big_rewards": bool(case.get("reward_scale")),
